@@ -110,8 +110,16 @@ class ChainNode(Entity):
         self.prev_node: ChainNode | None = None
         self.head_node: ChainNode | None = None
 
-        # CRAQ: track keys with uncommitted writes
+        # CRAQ: track keys with uncommitted writes.  A key stays dirty while
+        # *any* write to it that passed through this node is uncommitted, so
+        # the pending sequence numbers are tracked per key.
         self._dirty_keys: set[str] = set()
+        self._uncommitted: dict[str, set[int]] = {}
+
+        # Highest sequence number accepted per key.  Propagations for one key
+        # can overtake each other on the network; an older one must not
+        # overwrite a newer value.
+        self._applied_seq: dict[str, int] = {}
 
         # Pending write futures (HEAD: seq -> SimFuture)
         self._pending_writes: dict[int, SimFuture] = {}
@@ -204,12 +212,12 @@ class ChainNode(Entity):
         self._next_seq += 1
         seq = self._next_seq
 
+        # Mark dirty for CRAQ before the value becomes readable
+        if self._craq_enabled:
+            self._mark_dirty(key, seq)
+
         # Apply locally
         yield from self._store.put(key, value)
-
-        # Mark dirty for CRAQ
-        if self._craq_enabled:
-            self._dirty_keys.add(key)
 
         if self.next_node is not None:
             # Create ack future
@@ -232,11 +240,11 @@ class ChainNode(Entity):
             # Clean up
             self._pending_writes.pop(seq, None)
             if self._craq_enabled:
-                self._dirty_keys.discard(key)
+                self._mark_committed(key, seq)
         else:
             # Single-node chain (HEAD is also TAIL)
             if self._craq_enabled:
-                self._dirty_keys.discard(key)
+                self._mark_committed(key, seq)
 
         if reply_future is not None:
             reply_future.resolve({"status": "ok", "seq": seq})
@@ -254,11 +262,19 @@ class ChainNode(Entity):
 
         self._propagations_received += 1
 
-        # Apply locally
-        yield from self._store.put(key, value)
-
+        # Mark dirty for CRAQ before the value becomes readable
         if self._craq_enabled:
-            self._dirty_keys.add(key)
+            self._mark_dirty(key, seq)
+
+        # Apply locally, unless a newer write to this key got here first
+        if seq >= self._applied_seq.get(key, 0):
+            self._applied_seq[key] = seq
+            yield from self._store.put(key, value)
+        else:
+            # Stale propagation: keep the newer value, but take as long as the
+            # write would have so that it is not forwarded / acknowledged
+            # before the newer value is in the store.
+            yield getattr(self._store, "write_latency", 0.0)
 
         if self._role == ChainNodeRole.TAIL:
             # Send ack back to head
@@ -275,7 +291,7 @@ class ChainNode(Entity):
 
             # CRAQ: key is now clean, notify chain
             if self._craq_enabled:
-                self._dirty_keys.discard(key)
+                self._mark_committed(key, seq)
                 # Notify upstream nodes that key is committed
                 events = self._build_commit_notifications(key, seq)
                 if events:
@@ -308,7 +324,31 @@ class ChainNode(Entity):
         metadata = event.context.get("metadata", {})
         key = metadata.get("key")
         if key and self._craq_enabled:
-            self._dirty_keys.discard(key)
+            self._mark_committed(key, metadata.get("seq"))
+
+    def _mark_dirty(self, key: str, seq: int) -> None:
+        """CRAQ: remember that write ``seq`` to ``key`` is not yet committed."""
+        self._uncommitted.setdefault(key, set()).add(seq)
+        self._dirty_keys.add(key)
+
+    def _mark_committed(self, key: str, seq: int | None) -> None:
+        """CRAQ: write ``seq`` is committed; the key is clean once no other
+        write to it is still in flight."""
+        pending = self._uncommitted.get(key)
+        if pending is not None:
+            pending.discard(seq)
+            if pending:
+                return
+            del self._uncommitted[key]
+        self._dirty_keys.discard(key)
+
+    def _read_must_go_to_tail(self, key: str) -> bool:
+        return (
+            self._craq_enabled
+            and self._role != ChainNodeRole.TAIL
+            and key in self._dirty_keys
+            and self.head_node is not None
+        )
 
     def _handle_read(
         self,
@@ -320,12 +360,7 @@ class ChainNode(Entity):
         reply_future: SimFuture | None = metadata.get("reply_future")
 
         # CRAQ: if not tail and key is dirty, forward to tail
-        if (
-            self._craq_enabled
-            and self._role != ChainNodeRole.TAIL
-            and key in self._dirty_keys
-            and self.head_node is not None
-        ):
+        if self._read_must_go_to_tail(key):
             # Find tail (last in chain)
             tail = self._find_tail()
             if tail is not None and tail is not self:
@@ -339,9 +374,23 @@ class ChainNode(Entity):
                 return None
 
         # Serve locally
-        self._reads_served += 1
         value = yield from self._store.get(key)
 
+        # CRAQ: the key may have become dirty while the store was reading;
+        # the value just read could then be an uncommitted one.
+        if self._read_must_go_to_tail(key):
+            tail = self._find_tail()
+            if tail is not None and tail is not self:
+                fwd_event = self._network.send(
+                    self,
+                    tail,
+                    "Read",
+                    payload={"key": key, "reply_future": reply_future},
+                )
+                yield 0.0, [fwd_event]
+                return None
+
+        self._reads_served += 1
         if reply_future is not None:
             reply_future.resolve({"status": "ok", "value": value})
         return None
